@@ -140,7 +140,7 @@ type c16Tamper struct {
 }
 
 var c16TamperKinds = []string{
-	"acct-balance", "acct-balance", "acct-status", "acct-rewardsbase", "acct-authaddr", "acct-drop", "acct-dup",
+	"acct-balance", "acct-balance", "acct-status", "acct-rewardsbase", "acct-authaddr", "acct-drop", "acct-dup", "acct-dup",
 	"res-holding", "res-holding", "res-appstate", "res-appstate", "res-drop",
 	"kv-value", "kv-value", "kv-key", "kv-drop", "kv-dup", "kv-shift",
 	"oa-field", "oa-field", "oa-drop", "oa-dup", "orp-field", "orp-drop",
